@@ -54,4 +54,20 @@ BENIGN = {
     "crc_incremental": (["C17", "C18"], [
         ("src/kio/records/writers.py", "        crc=u32(crc32c.crc32c(post_checksum)),", "        crc=u32(crc32c.crc32c(post_checksum[8:], crc32c.crc32c(post_checksum[:8]))),"),
     ]),
+    # a CORRECT memo of field readers (full key): cross-class sharing of pure closures must not alarm C19's order stage
+    "field_reader_memo_full_key": (["C01", "C03", "C06", "C10", "C19"], [
+        (S + "_parse.py", "def get_field_reader(\n", "@__import__(\"functools\").cache\ndef get_field_reader(\n"),
+    ]),
+    # read_exact reads in chunks of at most 64 KiB and accumulates (allocation follows the data actually present)
+    "read_exact_chunked": (["C01", "C03", "C06", "C07", "C10", "C19"], [
+        (S + "readers.py",
+         "    value = buffer.read(num_bytes)\n    if len(value) != num_bytes:\n        raise BufferUnderflow(f\"Expected to read {num_bytes}, got {len(value)}\")\n    return value",
+         "    if num_bytes <= 65536:\n        value = buffer.read(num_bytes)\n    else:\n        parts = []\n        have = 0\n        while have < num_bytes:\n            part = buffer.read(min(65536, num_bytes - have))\n            if not part:\n                break\n            parts.append(part)\n            have += len(part)\n        value = b\"\".join(parts)\n    if len(value) != num_bytes:\n        raise BufferUnderflow(f\"Expected to read {num_bytes}, got {len(value)}\")\n    return value"),
+    ]),
+    # the staged tagged section is handed to the sink as a memoryview of a private, never reused bytes object
+    "writer_tag_section_memoryview": (["C01", "C02", "C07", "C19"], [
+        (S + "_serialize.py",
+         "            buffer.write(tag_buffer.getvalue())",
+         "            buffer.write(memoryview(tag_buffer.getvalue()))"),
+    ]),
 }
